@@ -26,6 +26,19 @@ SHARDS = {"quick": 1, "thorough": 1}  # one shard; it runs 16 session subprocess
 BUDGET = {"quick": 100.0, "thorough": 900.0}  # ceilings (heavily loaded machine); typical use is 15-25 s / 2-4 min
 WORKERS = 24  # sessions mostly sleep (alarms, holds): more children than cores
 REQUIRE = {
+    "early_redraw_fault_sessions": 80,
+    "early_redraw_fault_sessions:tornado:redraw1": 3,
+    "early_redraw_fault_sessions:asyncio:redraw1": 3,
+    "early_redraw_fault_sessions:zmq:redraw1": 3,
+    "modes_sessions:mouse=1,paste=0,focus=1": 4,
+    "modes_sessions:mouse=0,paste=0,focus=1": 4,
+    "modes_sessions:mouse=1,paste=1,focus=0": 4,
+    "modes_sessions:mouse=0,paste=1,focus=0": 4,
+    "modes_sessions:mouse=1,paste=0,focus=0": 4,
+    "modes_sessions:mouse=0,paste=1,focus=1": 4,
+    "filter_called_from_rehook:rehook-in-screen-start": 4,
+    "filter_called_from_rehook:rehook-in-loop-start": 4,
+    "fault_in_filter_called_from_rehook": 12,
     "MID_shell-out_checked": 30,
     "MID_suspend_checked": 3,
     "ORD_input_events_after_shell_out": 50,
@@ -111,7 +124,7 @@ RULE = (
     "tornado/twisted/trio/zmq, screen with or without hook_event_loop, pop_ups on/off, mouse tracking/bracketed paste/"
     "focus reporting on or off, initial signal dispositions default | application functions | SIG_IGN (all four or one signal)) x scripted session (keys, SGR "
     "mouse presses, focus/paste sequences, SIGWINCH with a real size change, 2 alarms, watch_pipe write, watch_file "
-    "write, pop-up open/close, shell-out (screen.stop() ... screen.start() inside a key handler / alarm callback) and SIGTSTP/SIGCONT mid-session, the terminal on file descriptors 0/1, resize bursts (2-3 real size changes in a row) followed by a key written inside get_input()'s resize throttle, stty changes of the terminal between two runs (iflag/lflag bits, erase/kill/eof, intr/quit/start/stop/susp), MainLoop.run() called two or three times on the same MainLoop/event-loop/screen objects (every loop but twisted; each run ended by a fault kind or the scripted exit and judged separately), several keys in one write whose first key makes a callback replace loop.widget by a page of other selectability / other handled keys, keys split over two writes (ESC|[A, a split UTF-8 char, a split SGR mouse report, a split f5) "
+    "write, pop-up open/close, a widget never served from the canvas cache with faults at redraw 0-3, all 8 (mouse, bracketed paste, focus reporting) combinations, a partial escape sequence pending across shell-out and across run() calls, shell-out (screen.stop() ... screen.start() inside a key handler / alarm callback) and SIGTSTP/SIGCONT mid-session, the terminal on file descriptors 0/1, resize bursts (2-3 real size changes in a row) followed by a key written inside get_input()'s resize throttle, stty changes of the terminal between two runs (iflag/lflag bits, erase/kill/eof, intr/quit/start/stop/susp), MainLoop.run() called two or three times on the same MainLoop/event-loop/screen objects (every loop but twisted; each run ended by a fault kind or the scripted exit and judged separately), several keys in one write whose first key makes a callback replace loop.widget by a page of other selectability / other handled keys, keys split over two writes (ESC|[A, a split UTF-8 char, a split SGR mouse report, a split f5) "
     "with the second write made after the loop read the first and the loop then held waiting > complete_wait; fixed orders + "
     "seeded shuffles in thorough) x injection (none, or ExitMainLoop / Boom(Exception) / Halt(BaseException) / SystemExit / exception groups (of one Boom, one ExitMainLoop, one BaseException, two members, nested one-in-one) "
     "at the k-th invocation of one of the 8 callback sites, enumerated from the fault-free run of the same "
@@ -160,7 +173,8 @@ TOK = {
     "focus": ("\x1b[I", ["focus in"]),
     "paste": ("\x1b[200~xy\x1b[201~", ["begin paste", "x", "y", "end paste"]),
     "Q": ("Q", ["Q"]),
-    "sh": ("S", ["S"]),  # unhandled_input('S') shells out: loop.screen.stop(); ...; loop.screen.start()
+    "sh": ("S", ["S"]),
+    "up2": ("[A", ["up"]),  # completes the ESC left pending by the "@part_esc" step  # unhandled_input('S') shells out: loop.screen.stop(); ...; loop.screen.start()
     # several keys in ONE write; the first one swaps loop.widget, the rest must follow the new topmost widget
     "nab": ("nab", ["n", "a", "b"]),
     "sbt": ("sbt", ["s", "b", "t"]),
@@ -184,6 +198,8 @@ BURSTS = {"@burst2": ([[50, 12], [60, 14]], "a"), "@burst3": ([[44, 11], [52, 13
 # shell-out from a key handler and from an alarm callback (and ctrl-z / fg where the app's own SIGTSTP handler allows it),
 # with input, mouse and a resize afterwards
 SCRIPT_K = ["@shalarm", "a", "sh", "up", "m1", "@alarm0", "bz", "@suspend", "x", "@winch", "a", "sh", "m3", "@alarm1", "a", "Q"]
+# a partial escape sequence is pending in the screen while a callback shells out (stop / start re-hook the input)
+SCRIPT_PK = ["@shalarm", "a", "@part_esc", "@alarm0", "up2", "bz", "m1", "@alarm1", "Q"]
 SCRIPT_Z = ["a", "@burst2", "up", "m1", "@alarm0", "@burst3", "bz", "m3", "@alarm1", "@winch", "a", "Q"]
 COMPLETE_WAIT = 0.4  # generous, so that a slow driver thread does not let a split key time out for real
 HOLD = COMPLETE_WAIT + 0.12  # the loop is kept waiting this long after the last split's first fragment was read
@@ -202,6 +218,12 @@ def build_script(tokens, cfg):
         if t == "paste" and not cfg["paste"]:
             continue
         if t in ("@pipe", "@file") and not cfg["hook"]:
+            continue
+        if t == "@part_esc":
+            if cfg["hook"]:
+                steps.append(["part1", "\x1b", t])
+            continue
+        if t == "up2" and not cfg["hook"]:
             continue
         if t == "@shalarm":
             continue  # not a step: the first harness alarm's callback shells out (spec["shell_in_alarm0"])
@@ -260,7 +282,8 @@ def make_spec(cfg, tokens, inject=None):
         "tokens": list(tokens),
         "inject": inject,
         "utf8": any(t in SPLIT for t in tokens),
-        "complete_wait": COMPLETE_WAIT if any(t in SPLIT for t in tokens) else None,
+        "complete_wait": COMPLETE_WAIT if any(t in SPLIT or t == "@part_esc" for t in tokens) else None,
+        "always_render": bool(cfg.get("always_render")),
     }
 
 
@@ -286,6 +309,11 @@ def inject_class(spec, log):
         via = log[pos - 1].get("via", "other") if pos else "unreached"
         first = pos is not None and not any(e["site"] == "flush" for e in log[:pos])
         site = "render-initial" if first else {"input": "render-in-input", "idle": "render-idle", "screenloop": "render-idle"}.get(via, f"render-{via}")
+    if site == "filter":
+        pos = next((i for i, e in enumerate(log) if e["site"] == "inject"), None)
+        via = log[pos - 1].get("via", "input") if pos else "input"
+        if via != "input":
+            site = f"filter-{via}"  # the filter was called from inside Screen._stop / _start / MainLoop.start (re-hook)
     return f"{site}:{inj['kind']}"
 
 
@@ -357,6 +385,13 @@ def judge(spec, res, ctx, base_rst=None):  # noqa: C901, PLR0912, PLR0915
     def add_rst(detail, msg):
         # a restoration failure that the fault-free session of the same configuration shows too does not depend on the
         # exit path: one signature for it; otherwise the exit path (not the exact callback) names the mechanism
+        if icls.startswith(("filter-rehook-in-loop-start:", "filter-rehook-in-screen-start:")):
+            # MainLoop.start() itself raised (user code called while it hooks the screen): whatever is left unrestored is
+            # one mechanism -- nothing stops the screen that start() had started
+            sig_ = f"C12|{cfg_tag(spec)}|RST|display-left-started-when-MainLoop.start-raised|any-fault"
+            if not any(x[0] == sig_ for x in v):
+                v.append((sig_, f"a fault ({inj['kind']}) in the input filter, called from MainLoop.start() while re-hooking a screen with a pending partial escape sequence, left the display started: {detail}; {msg}"))
+            return
         if detail.startswith("termios|changed-between-runs|"):
             # defined by what changed between the two sessions, not by how either of them ended
             v.append((f"C12|{cfg_tag(spec)}|RST|{detail}|any-exit-path", msg))
@@ -394,6 +429,8 @@ def judge(spec, res, ctx, base_rst=None):  # noqa: C901, PLR0912, PLR0915
             shelled_out = True
             continue
         if s == "filter":
+            if e.get("via", "input") != "input":
+                ctx.count(f"filter_called_from_rehook:{e['via']}")
             if pending or stage in ("need-unhandled",):
                 add("ORD", "next-filter-before-batch-delivered", f"filter called while {pending!r}/{stage} undelivered")
                 ord_broken = True
@@ -670,6 +707,8 @@ def judge(spec, res, ctx, base_rst=None):  # noqa: C901, PLR0912, PLR0915
         kind = inj["kind"]
         fe = _final_exit(log[inj_pos:])
         ctx.count(f"inject_reached:{kind}")
+        if icls.startswith("filter-rehook"):
+            ctx.count("fault_in_filter_called_from_rehook")
         ctx.count(f"site_injected:{inj['site']}")
         ctx.count(f"EXIT_{kind}_checked")
         if kind == "exit":
@@ -799,7 +838,7 @@ def _final_exit(log):
 
 
 def base_cfg(**kw):
-    c = {"loop": "select", "hook": True, "pop_ups": False, "mouse": True, "paste": True, "focus": True, "handlers": "default", "fd0": False}
+    c = {"loop": "select", "hook": True, "pop_ups": False, "mouse": True, "paste": True, "focus": True, "handlers": "default", "fd0": False, "always_render": False}
     c.update(kw)
     return c
 
@@ -835,6 +874,20 @@ def plan_configs(ctx):
             plans.append((base_cfg(loop=lp, handlers="custom" if lp in ("select", "asyncio", "twisted") else "default", fd0=lp in ("asyncio", "zmq")), SCRIPT_K, "min"))
             plans.append((base_cfg(loop=lp, fd0=True), SCRIPT_S, "few"))
         plans.append((base_cfg(hook=False, handlers="custom", fd0=True), SCRIPT_K, "min"))
+        # every early redraw really renders (widget never served from the canvas cache): faults at redraw 0, 1, 2, 3
+        for lp in LOOPS:
+            plans.append((base_cfg(loop=lp, always_render=True), SCRIPT_S, "early"))
+        plans.append((base_cfg(hook=False, always_render=True), SCRIPT_S, "early"))
+        # all (mouse, bracketed paste, focus reporting) combinations other than all-on / all-off
+        combos = [(m, p_, f_) for m in (True, False) for p_ in (True, False) for f_ in (True, False) if (m, p_, f_) not in ((True, True, True), (False, False, False))]
+        for n, lp in enumerate(LOOPS):
+            m, p_, f_ = combos[n]
+            plans.append((base_cfg(loop=lp, mouse=m, paste=p_, focus=f_), SCRIPT_B, "min"))
+        for m, p_, f_ in combos:
+            plans.append((base_cfg(hook=(m or p_), mouse=m, paste=p_, focus=f_), SCRIPT_B, "min"))
+        # a partial escape sequence is pending while a callback shells out: the input filter is called from the re-hooks
+        for lp in ("select", "asyncio", "tornado", "trio"):
+            plans.append((base_cfg(loop=lp), SCRIPT_PK, "rehook"))
         plans.append((base_cfg(hook=False), SCRIPT_Z, "few"))
         plans.append((base_cfg(hook=False, pop_ups=True), SCRIPT_Z, "min"))
         for lp in ("select", "asyncio", "trio"):
@@ -869,6 +922,16 @@ def plan_configs(ctx):
         plans.append((base_cfg(loop=lp, fd0=True), SCRIPT_S, "full"))
         plans.append((base_cfg(loop=lp, fd0=True, pop_ups=True), SCRIPT_A, "ends"))
     plans.append((base_cfg(hook=False, handlers="custom"), SCRIPT_K, "full"))
+    combos = [(m, p_, f_) for m in (True, False) for p_ in (True, False) for f_ in (True, False)]
+    for lp in LOOPS:
+        plans.append((base_cfg(loop=lp, always_render=True), SCRIPT_S, "full"))
+        plans.append((base_cfg(loop=lp, always_render=True, pop_ups=True), SCRIPT_A, "early"))
+        plans.append((base_cfg(loop=lp), SCRIPT_PK, "full"))
+        for m, p_, f_ in combos:
+            plans.append((base_cfg(loop=lp, mouse=m, paste=p_, focus=f_), SCRIPT_B, "first"))
+    for m, p_, f_ in combos:
+        plans.append((base_cfg(hook=False, mouse=m, paste=p_, focus=f_), SCRIPT_B, "first"))
+    plans.append((base_cfg(hook=False, always_render=True), SCRIPT_S, "full"))
     plans.append((base_cfg(hook=False, fd0=True), SCRIPT_K, "ends"))
     plans.append((base_cfg(hook=False, pop_ups=True, handlers="custom"), SCRIPT_Z, "ends"))
     for lp in LOOPS:
@@ -903,6 +966,10 @@ def injection_points(counts, mode):
             ks = sorted({0, n // 2, n - 1}) if site == "render" else [0]
         elif mode == "min":
             ks = [n // 2] if site == "keypress" else []
+        elif mode == "early":
+            ks = [k for k in (0, 1, 2, 3) if k < n] if site == "render" else []
+        elif mode == "rehook":
+            ks = [k for k in (2, 3) if k < n] if site == "filter" else ([0] if site == "keypress" else [])
         else:  # few
             ks = [0] if site in ("keypress", "alarm", "filter") else ([n // 2] if site == "render" else [])
         pts.extend((site, k) for k in ks)
@@ -956,6 +1023,10 @@ def evaluate(ctx, spec, res, base_rst=None):
         ctx.count(f"ign_handler_sessions:{spec['handlers']}")
     if spec["pop_ups"]:
         ctx.count("popup_sessions")
+    ctx.count(f"modes_sessions:mouse={int(spec['mouse'])},paste={int(spec['paste'])},focus={int(spec['focus'])}")
+    if spec.get("always_render") and spec.get("inject") and spec["inject"]["site"] == "render" and spec["inject"]["k"] <= 3:
+        ctx.count("early_redraw_fault_sessions")
+        ctx.count(f"early_redraw_fault_sessions:{spec['loop']}:redraw{spec['inject']['k']}")
     if spec.get("fd0"):
         ctx.count("fd0_sessions")
         ctx.count(f"fd0_sessions:{spec['loop']}")
@@ -975,6 +1046,10 @@ def evaluate(ctx, spec, res, base_rst=None):
         vs = []
         ctx.count("rerun_sessions")
         for k, (spec_k, res_k) in enumerate(run_views(spec, res)):
+            if k and res["runs"][k - 1]["started_after"]:
+                # the previous run left the display started (reported there): what follows begins on a dirty terminal
+                ctx.count("reruns_not_judged_after_an_unrestored_run")
+                break
             if k:
                 ctx.count("reruns_judged")
                 ctx.count(f"reruns_judged:{spec_k['run_ctx'].lstrip('|')}")
@@ -1149,6 +1224,20 @@ def rerun_specs(ctx):
             site2 = list(R2_POINTS)[n % len(R2_POINTS)]
             combos.append((f, (site2, ("boom", "exit", "base")[n % 3])))
     out = []
+    # a partial escape sequence is still pending in the screen when run() is called again: MainLoop.start() re-hooks the
+    # screen, which re-parses it and calls the input filter -- faults right there
+    for cfg in [base_cfg(loop=lp) for lp in RERUN_LOOPS]:
+        for end1 in ("exit", "boom"):
+            for kind2 in (None, "exit", "boom", "base"):
+                spec = make_spec(cfg, ["a", "@part_esc", "@alarm0", "Q"], {"site": "alarm", "k": 0, "kind": end1})
+                t2 = ["up2", "bz", "Q"]  # "[A" completes the ESC that is still pending from the first run
+                t3 = SCRIPT_R3 if kind2 is None else ["up2", *SCRIPT_R3]
+                spec["more_runs"] = [
+                    {"script": build_script(t2, cfg), "tokens": t2, "inject": ({"site": "filter", "k": 0, "kind": kind2} if kind2 else None), "alarms": [0.07]},
+                    {"script": build_script(t3, cfg), "tokens": t3, "inject": None, "alarms": [0.07]},
+                ]
+                spec["complete_wait"] = 1.5  # the pending ESC must not time out between the runs
+                out.append(spec)
     for cfg in cfgs:
         for f1, f2 in combos:
             def inj(f, pts):
@@ -1212,6 +1301,8 @@ def _run(ctx, runner):
         sysexit_pts = set(injection_points(res["counts"], "few" if ctx.quick else "ends")) if (not ctx.quick or (mode == "first" and toks is SCRIPT_S) or mode == "full") else set()
         if toks is SCRIPT_P and ctx.quick:
             base_pts, sysexit_pts = set(injection_points(res["counts"], "min")), set()
+        if mode in ("early", "rehook"):
+            base_pts, sysexit_pts = set(pts), set(pts)
         for site, k in pts:
             kinds = ["exit", "boom"]
             if (site, k) in base_pts:
